@@ -44,10 +44,15 @@ func main() {
 	tier := flag.String("tier", "quick", "quick|thorough")
 	replay := flag.String("replay", "", "replay file")
 	dump := flag.String("dump", "", "debug: dump paths of pkg:Func")
+	regions := flag.String("regions", "", "debug: dump loop regions of Func")
 	dumpCfg := flag.String("cfg", "amd64-default", "configuration for -dump")
 	flag.Parse()
 	if env := os.Getenv("VERIF_TIER"); env != "" && *tier == "" {
 		*tier = env
+	}
+	if *regions != "" {
+		dumpRegions(*regions, *dumpCfg)
+		return
 	}
 	if *dump != "" {
 		dumpPaths(*dump, *dumpCfg)
